@@ -518,7 +518,7 @@ def run_scaled_equal(ctx):
 def run_streams(ctx, procs):
     rng = ctx.rng
     cases, lines = [], []
-    for _ in range(ctx.n(600, 8000)):
+    for _ in range(ctx.n(1500, 8000)):
         kind = rng.choice(['num', 'num', 'cf', 'str'])
         n = rng.choice([0, 1, 2, 3, 5, 9])
         if kind == 'str':
@@ -609,7 +609,7 @@ def run_strings(ctx, procs, corpus_cols=()):
             for col in combos:
                 cols.append((nb, list(col)))
     # random: widths up to 64 octets (64 does not fit the 6-bit field), up to 40 subsets
-    for _ in range(ctx.n(300, 5000)):
+    for _ in range(ctx.n(600, 5000)):
         nb = rng.choice([1, 2, 4, 8, 20, 32, 63, 64, 65]) if rng.random() < 0.5 else rng.randrange(0, 24)
         n = rng.choice([1, 2, 3, 4, 7, 19, 40]) if rng.random() < 0.6 else rng.randrange(1, 41)
         style = rng.choice(['different', 'equal', 'equal-nul', 'equal-ff', 'allmissing', 'mixed'])
@@ -774,7 +774,7 @@ def gen_e2e(ctx):
     rng = ctx.rng
     env()
     cases = []
-    for _ in range(ctx.n(120, 3000)):
+    for _ in range(ctx.n(300, 3000)):
         name, ids, slots = rng.choice(E2E_TEMPLATES)
         n = rng.choice([1, 2, 3, 4, 8, 20])
         if name == 'numeric-201':
@@ -885,17 +885,17 @@ def run(ctx):
 
     # (a) exhaustive core
     if ctx.quick:
-        cases = gen_exhaustive(ctx, 'num', [1, 2, 3], 4, 2500, 0.05)
-        cases += gen_exhaustive(ctx, 'cf', [1, 2, 3], 4, 1500, 0.05)
+        cases = gen_exhaustive(ctx, 'num', [1, 2, 3], 4, 6000, 0.05)
+        cases += gen_exhaustive(ctx, 'cf', [1, 2, 3], 4, 4000, 0.05)
     else:
         cases = gen_exhaustive(ctx, 'num', [1, 2, 3, 4], None, 0, 0.03)
         cases += gen_exhaustive(ctx, 'cf', [1, 2, 3, 4], None, 0, 0.03)
     run_columns(ctx, cases, 'exhaustive-core', procs)
     ctx.exhaustive = not ctx.quick
     ctx.extra['exhaustive_core'] = ('all columns of <=4 subsets over {missing,0..2^w-2}, w<=%d, numeric and code/flag: complete%s'
-                                    % ((3, '; w=4: 2500+1500 sampled') if ctx.quick else (4, '')))
+                                    % ((3, '; w=4: 6000+4000 sampled') if ctx.quick else (4, '')))
     # (b) random wide columns
-    run_columns(ctx, gen_random_num(ctx, ctx.n(1200, 20000)), 'random-wide', procs)
+    run_columns(ctx, gen_random_num(ctx, ctx.n(2500, 20000)), 'random-wide', procs)
     run_scaled_equal(ctx)
     # (c) strings
     run_strings(ctx, procs, str_cols_corpus)
@@ -909,7 +909,8 @@ def run(ctx):
     # --- extraction cross-check: a sample evaluated by vm_compute ----------------
     rng = ctx.rng
     items = []
-    sample = [c for c in cases if len(c[2]) >= 2 and c[0] == 'num'][:: max(1, len(cases) // ctx.n(25, 80))][:ctx.n(25, 80)]
+    pool = [c for c in cases if len(c[2]) >= 2 and c[0] == 'num']
+    sample = pool[:: max(1, len(pool) // ctx.n(40, 120))][:ctx.n(40, 120)]
     lines = ['encnum %d %s %s' % (c[1], '1' if all_equal_flag(c[2]) else '0', show_opt(c[2])) for c in sample]
     for c, out in zip(sample, lib.run_model(lines)):
         def copt(vals):
